@@ -158,3 +158,21 @@ def run(v, tier, replay):
         raise lib.Inconclusive("%d histories where model and code differ without a property being violated, e.g. %s" % (len(unexplained), unexplained[:3]))
     if unexplained:
         v.cov["unexplained_examples"] = unexplained[:3]
+
+    # simultaneous requests for ONE grant in one session (every request is checked in its own goroutine); race-detector build
+    outc = os.path.join(sd, "conc.ndjson")
+    rc, so, se = lib.overlay_test("hopserver", "^TestVerifGrantsConcurrent$", env_extra={"VT_OUT": outc, "GORACE": "halt_on_error=1"}, timeout=1500, race=True)
+    evs = lib.read_ndjson(outc) if os.path.exists(outc) else []
+    if rc != 0 and "WARNING: DATA RACE" in (so + se):
+        where = [l.strip().split(" ")[0] for l in (so + se).split("\n") if lib.REPO_MARK in l and "zz_verif" not in l][:2]
+        v.violation("data race between simultaneous requests of one session on the list of unused grants (%s)" % ", ".join(w.split(lib.REPO_MARK)[-1] for w in where), "race detector, overlay driver TestVerifGrantsConcurrent", dict(tail=(so + se)[-1500:]))
+    elif rc != 0 or not any(e.get("done") for e in evs):
+        raise lib.Inconclusive("concurrent-grant driver failed: rc=%s\n%s" % (rc, (so + se)[-1500:]))
+    for e in evs:
+        if e.get("ev") != "concgrant":
+            continue
+        v.count("concurrent_grant_rounds", e["rounds"])
+        v.case(("concgrant", e["kind"], e["n"]), nontrivial=True)
+        if e["rounds_with_more_than_one"] > 0 or e["panics"] > 0:
+            v.violation("one %s grant, %d simultaneous requests in one session: more than one request authorized in %d of %d rounds (max %d), %d panics" % (e["kind"], e["n"], e["rounds_with_more_than_one"], e["rounds"], e["max_ok"], e["panics"]),
+                        "overlay driver TestVerifGrantsConcurrent on real hopSession values", e)
